@@ -43,6 +43,30 @@ ObsResultPartition == (AtEnd /\ R.finished = 1) =>
     /\ Len(R.result) = R.total /\ ToSet(R.result) = 0..(R.total - 1)
 ObsJobs == AtEnd => \A k \in 1..Len(R.jobs) : (R.jobs[k][1] = 0) = (R.jobs[k][2] = "best")   \* bws = inf <=> exact algorithm
 
+(* ---- the fast-vs-exact decision of measure_best_window_size (performance section of the documentation):        ----*)
+(*   C(w) = n p + (n / w) (lambda (w+s)^p + D),  lambda = 1/20,  n = average units per annotator, p annotators,        *)
+(*   s = largest annotator of the smallest window; windowing is advantageous iff min_w C(w) < n p + lambda n^p.        *)
+(* Judged only where the estimate is clear-cut (a factor 2 either way): the estimate is a heuristic, its direction is   *)
+(* what the property relies on.                                                                                        *)
+Log2m(k) == File.log2[k]                                   \* round(1000 * log2(k))
+RECURSIVE Pow(_, _)
+Pow(b, e) == IF e = 0 THEN 1 ELSE LET r == Pow(b, e - 1) IN IF r > 20000000 THEN 400000000 ELSE r * b    \* capped
+EstX(w, n, p, sx) == (n - w) * p + 2 * p + (w + sx * p) * p + w * p + Pow(w + sx, p) \div 20
+                     + ((w + sx) * p * Log2m((w + sx) * p)) \div 1000
+LogFact(w) == FoldSet(LAMBDA i, acc : acc + Log2m(i), 0, 1..w) \div 1000
+EstC(w, n, p, sx) == n * p + (EstX(w, n, p, sx) * n) \div w + p * LogFact(w)
+EstExact(n, p) == n * p + Pow(n, p) \div 20
+ObsWindowEstimate ==
+    AtEnd => \A k \in 1..Len(R.est) :
+        LET e == R.est[k]
+            ws == 1..((IF e.maxper > 2 THEN e.maxper ELSE 2) - 1)
+            A == Min({EstC(w, e.n, e.p, e.s) : w \in ws})
+            B == EstExact(e.n, e.p)
+        IN (e.n >= 1 /\ (e.maxper + e.s) * e.p < Len(File.log2)) =>
+              /\ 2 * A < B => e.bws > 0                                   \* clearly advantageous: a finite window is chosen
+              /\ A > 2 * B => e.bws = 0                                   \* clearly disadvantageous: the exact algorithm
+              /\ e.bws > 0 => (e.bws \in ws /\ EstC(e.bws, e.n, e.p, e.s) <= 2 * A + 2)
+
 Judge(name, ok) == ok \/ PrintT(ToJson([verdict |-> name, tid |-> tid, l |-> l]))
 Verdicts ==
     /\ AtEnd => PrintT(ToJson([done |-> tid]))
@@ -57,4 +81,5 @@ Verdicts ==
     /\ Judge("ObsFinished", ObsFinished)
     /\ Judge("ObsResultPartition", ObsResultPartition)
     /\ Judge("ObsJobs", ObsJobs)
+    /\ Judge("ObsWindowEstimate", ObsWindowEstimate)
 =============================================================================
